@@ -80,11 +80,22 @@ def modular_set(tier):
     return out
 
 
+HUGE = 2 ** 53       # Python ints around 2**53 against the float constant 2**53: "holds" is the exact comparison, int - float is not exact
+
+
+def huge_set():
+    c = ('const', float(HUGE))
+    ps = [('pred', op, F.X, c) for op in ('>=', '>', '<=', '<', '==', '!==')]
+    return ps + [('and', ps[1], F.PY), ('once', (0, 1), ps[3]), ('or', ('not', ps[0]), ('pred', '<=', F.Y, c))]
+
+
 def shards(tier):
     fs = formula_set(tier)
     per = 4 if tier == 'quick' else 2
     out = [{'formulas': [F.to_json(f) for f in fs[i:i + per]]} for i in range(0, len(fs), per)]
     out += [{'modular': i} for i in range(len(modular_set(tier)))]
+    hs = huge_set()
+    out += [{'formulas': [F.to_json(f) for f in hs[i:i + 3]], 'huge': True} for i in range(0, len(hs), 3)]
     return out
 
 
@@ -188,8 +199,13 @@ def run_shard(shard, tier, res):
             tl = list(F.traces(n, (-1.0, 0.0, 1.0, 2.0), 1))
         else:
             tl = list(F.traces(n, F.V2, 2)) + list(F.traces(n, (0.0, 1.0), 2))     # {-1,2} and the thresholds themselves
+        if shard.get('huge'):
+            hv = (HUGE - 1, HUGE, HUGE + 1, HUGE + 2)
+            tl = list(F.traces(2, hv, 1)) if len(vs) == 1 else [t for t in F.traces(2, hv, 2)][::3]
         traces = [F.trace_dict(t, vs) for t in tl]
         for kind, pastify in plans_for(f):
+            if shard.get('huge') and kind.startswith('ct'):
+                continue
             if kind.startswith('dt'):
                 datas = [(w, 'all') for w in traces]
             else:
